@@ -15,6 +15,7 @@
 EXTENDS Grid, Json
 
 CONSTANTS Starts,     \* start table ids
+          Creates,    \* constructions offered as first operation: "none" | "core" | "all"
           OpNames,    \* operation names explored
           Depth,      \* operations after Start
           Slack,      \* positions range over -1 .. n + Slack
@@ -39,7 +40,9 @@ CellsD(t) ==
   IF CellMode = "all" THEN IdxD(NR(t)) \X IdxD(MaxCells(t))
   ELSE {<<p[1] - 1, p[2] - 1>> : p \in Pos(t)}
        \cup {<<-1, 0>>, <<0, -1>>, <<NR(t), 0>>, <<0, NC0(t)>>, <<NR(t) - 1, MaxCells(t) - 1>>}
-FewCells(t) == {<<0, 0>>, <<NR(t) - 1, MaxCells(t) - 1>>, <<0, NC0(t)>>, <<NR(t) - 1, 0>>}
+\* cells that take part in a merge (they carry the markers a cell-level call must not disturb)
+MarkedCells(t) == {<<p[1] - 1, p[2] - 1>> : p \in {p \in Pos(t) : t.rows[p[1]][p[2]].vm # "none" \/ t.rows[p[1]][p[2]].span # 1}}
+FewCells(t) == {<<0, 0>>, <<NR(t) - 1, MaxCells(t) - 1>>, <<0, NC0(t)>>, <<NR(t) - 1, 0>>} \cup MarkedCells(t)
 Width(t) == IF t.gc > MaxCells(t) THEN t.gc ELSE MaxCells(t)
 
 On(n) == n \in OpNames
@@ -65,7 +68,13 @@ OpsOf(s) ==
   \cup (IF On("DeleteColumns") THEN {[op |-> "DeleteColumns", a |-> p[1], b |-> p[2]] : p \in PairsD(w)} ELSE {})
   \cup (IF On("SetCellText") THEN {[op |-> "SetCellText", r |-> p[1], c |-> p[2], tok |-> n] : p \in CellsD(t)} ELSE {})
   \cup UNION {IF On(o) THEN {[op |-> o, r |-> p[1], c |-> p[2], tok |-> n] : p \in (IF CellMode = "all" THEN CellsD(t) ELSE FewCells(t))} ELSE {}
-              : o \in CellOps \ {"SetCellText"}}
+              : o \in CellOps \ {"SetCellText", "CellFmt", "AddNestedTable"}}
+  \cup (IF On("AddNestedTable") THEN
+         {[op |-> "AddNestedTable", cfg |-> "ok", r |-> p[1], c |-> p[2], tok |-> n] : p \in (IF CellMode = "all" THEN CellsD(t) ELSE FewCells(t))}
+         \cup {[op |-> "AddNestedTable", cfg |-> k, r |-> 0, c |-> 0, tok |-> n] : k \in NestCfgs} ELSE {})
+  \cup (IF On("CellFmt") THEN
+         {[op |-> "CellFmt", f |-> f, r |-> p[1], c |-> p[2], tok |-> n] :
+            f \in FmtKinds, p \in (IF CellMode = "all" THEN CellsD(t) ELSE FewCells(t))} ELSE {})
   \cup (IF On("MergeCellsHorizontal") THEN
          {[op |-> "MergeCellsHorizontal", r |-> r, a |-> p[1], b |-> p[2]] : r \in IdxD(nr), p \in PairsD(w)} ELSE {})
   \cup (IF On("MergeCellsVertical") THEN
@@ -74,8 +83,31 @@ OpsOf(s) ==
          {[op |-> "MergeCellsRange", sr |-> p[1], er |-> p[2], sc |-> q[1], ec |-> q[2]] : p \in PairsD(nr), q \in PairsD(w)} ELSE {})
   \cup (IF On("UnmergeCells") THEN {[op |-> "UnmergeCells", r |-> p[1], c |-> p[2]] : p \in CellsD(t)} ELSE {})
   \cup {[op |-> o] : o \in OpNames \cap {"ClearTable", "CopyTable", "ReadAll", "RowFmt"}}
+  \cup (IF On("TblFmt") THEN {[op |-> "TblFmt", f |-> f] : f \in TblFmtKinds} ELSE {})
 
-StartOps == {[op |-> "Start", k |-> k] : k \in Starts}
+\* ---- constructions: every entry point, dimensions from -1, fewer / as many / more column widths than
+\* columns, initial contents absent / exact / smaller / larger than the table
+CGrid(cls, r, c) ==
+  LET rr == IF r < 0 THEN 0 ELSE r
+      cc == IF c < 0 THEN 0 ELSE c
+  IN CASE cls = "none"  -> <<>>
+       [] cls = "full"  -> [i \in 1..rr |-> [j \in 1..cc |-> (i - 1) * cc + j]]
+       [] cls = "short" -> [i \in 1..(IF rr > 1 THEN rr - 1 ELSE rr) |->
+                              [j \in 1..(IF i = 1 /\ cc > 1 THEN cc - 1 ELSE cc) |-> (i - 1) * cc + j]]
+       [] cls = "over"  -> [i \in 1..(rr + 1) |-> [j \in 1..(cc + 1) |-> (i - 1) * (cc + 1) + j]]
+WidthsD(c) == {n \in {0, c - 1, c, c + 1, c + 2} : n >= 0}
+CreateOps ==
+  IF Creates = "none" THEN {}
+  ELSE IF Creates = "all" THEN
+    {o \in {[op |-> "Create", via |-> v, rows |-> r, cols |-> c, nw |-> n, grid |-> CGrid(g, r, c)] :
+               v \in CreateVias, r \in -1..3, c \in -1..3, n \in 0..5, g \in {"none", "full", "short", "over"}} :
+       o.nw \in WidthsD(o.cols)}
+  ELSE \* "core": one table shape, every entry point and width class, contents exact / larger
+    {[op |-> "Create", via |-> v, rows |-> 3, cols |-> 2, nw |-> n, grid |-> CGrid(g, 3, 2)] :
+        v \in CreateVias, n \in WidthsD(2), g \in {"full", "over"}}
+    \cup {[op |-> "Create", via |-> v, rows |-> d[1], cols |-> d[2], nw |-> 0, grid |-> <<>>] :
+            v \in CreateVias, d \in {<<0, 2>>, <<2, 0>>}}
+StartOps == {[op |-> "Start", k |-> k] : k \in Starts} \cup CreateOps
 
 NextTok(s, op) ==
   IF op.op = "Start" THEN StartToks(op.k) + 1
@@ -117,14 +149,16 @@ Inv_Read == LET cs == CellsOf(st.tbl) IN Len(cs) = Cardinality(Pos(st.tbl))
 \* ---- generation --------------------------------------------------------------
 NextGen ==
   /\ Len(hist) <= Depth
-  /\ \E op \in (IF hist = <<>> THEN StartOps ELSE OpsOf(st)) :
+  /\ \E op \in (IF hist = <<>> THEN StartOps ELSE IF NR(st.tbl) = 0 THEN {} ELSE OpsOf(st)) :
         /\ st' = Step(st, op)
         /\ hist' = Append(hist, op)
   /\ pre' = st.tbl /\ bad' = bad
 SpecGen == Init /\ [][NextGen]_vars
 
-Emit == Len(hist) <= Depth \/ PrintT(<<"WZCASE", ToJson(hist)>>)
-EmitAll == Len(hist) <= 1 \/ PrintT(<<"WZCASE", ToJson(hist)>>)
+\* a refused construction leaves no table: the behaviour ends there and is emitted as it is
+Ended == hist # <<>> /\ NR(st.tbl) = 0
+Emit == (Len(hist) <= Depth /\ ~Ended) \/ PrintT(<<"WZCASE", ToJson(hist)>>)
+EmitAll == (Len(hist) <= 1 /\ ~Ended) \/ PrintT(<<"WZCASE", ToJson(hist)>>)
 
 \* graph mode: identify states by (shape before the last op, last op), content tokens abstracted
 ShapeOf(t) == [gc |-> t.gc,
@@ -133,9 +167,11 @@ ShapeOf(t) == [gc |-> t.gc,
 OpShape(op) ==
   IF op.op \in {"InsertRow", "AppendRow", "InsertColumn", "AppendColumn"} THEN [op EXCEPT !.data = Len(op.data)]
   ELSE IF op.op \in CellOps THEN [op EXCEPT !.tok = 0]
+  ELSE IF op.op = "Create" THEN [op EXCEPT !.grid = [i \in 1..Len(op.grid) |-> Len(op.grid[i])]]
   ELSE op
 \* (the start table id is kept: a reopened table has the shape of the one built through the API)
-GView == <<IF hist = <<>> THEN "none" ELSE hist[1].k, ShapeOf(pre),
+StartId(op) == IF op.op = "Start" THEN op.k ELSE op.via
+GView == <<IF hist = <<>> THEN "none" ELSE StartId(hist[1]), ShapeOf(pre),
            IF hist = <<>> THEN [op |-> "none"] ELSE OpShape(hist[Len(hist)])>>
 MCView == <<ShapeOf(st.tbl), bad>>
 =============================================================================
